@@ -37,6 +37,14 @@ for every concrete definition of get_available_units / get_nearest_availability_
 an override of the search must either be the search loop itself or only delegate to the inherited search with the
 caller's start date, direction and max_days unchanged.
 
+Refactoring shapes the rule follows (robustness round): a day table built by a same-class helper that fills a local
+dict and returns it (`self.F = K.__build(..)`: stores, guards and loops are read inside the helper, parameters mapped
+back to the caller's arguments); the fold loop extracted into a helper parameterised by an operator callable
+(`operator.isub`, `operator.sub`, `lambda a, b: a - b`), called as `return H(self.ops, date, op)` or `x = H(..); tail`;
+a search that steps a local copy of the start date and probes `date - 1 day if backward else date`.  When the engine's
+normaliser folded helpers and the folded shape is not decided, the fold obligations are retried on the tree as written
+(`Program(repo, normalise=False)`), and the attempt without UNDECIDED is the one reported.
+
 The decision procedures evaluate the (loop free) blocks over finite abstract domains (see c17_util): unit values by
 sign class {None, <0, 0, >0}, dates by their position against a validity interval, direction in {-1, +1}.
 
@@ -275,17 +283,85 @@ def _loop_split(f):
     return body[:i], body[i], body[i + 1:]
 
 
-def _field_iter(ctx, o, f, loop, K):
+class _Deleg:
+    """the fold loop lives in a helper g called from K.get_available_units (tf): sub maps g's parameters to tf's
+    expressions, tacc is the local of tf that receives the helper's result (None: returned directly), ktail the
+    statements of tf after the call"""
+
+    def __init__(self, tf, sub, tacc, ktail, call):
+        self.tf, self.sub, self.tacc, self.ktail, self.call = tf, sub, tacc, ktail, call
+
+
+def _fold_helper(ctx, f):
+    """K.get_available_units = `return H(self.ops, date, op)` or `x = H(..); <tail over x>` with H holding the loop"""
+    from sa.flow import subst
+    body = [st for st in f.body if not (isinstance(st, ast.Expr) and isinstance(st.value, ast.Constant))]
+    if not body:
+        return None
+    st = body[0]
+    if isinstance(st, ast.Return) and isinstance(st.value, ast.Call) and len(body) == 1:
+        call, tacc, ktail = st.value, None, []
+    elif isinstance(st, ast.Assign) and len(st.targets) == 1 and isinstance(st.targets[0], ast.Name) and isinstance(st.value, ast.Call):
+        call, tacc, ktail = st.value, st.targets[0].id, body[1:]
+        if any(isinstance(n, (ast.Assign, ast.AugAssign)) and any(_name(t, tacc) for t in (n.targets if isinstance(n, ast.Assign) else [n.target]))
+               for x in ktail for n in ast.walk(x)):
+            return None
+    else:
+        return None
+    g = None
+    if isinstance(call.func, ast.Name):
+        tg = [t for t in ctx.typer.resolve_name_call(call.func.id, f) if t.kind == 'function']
+        g = tg[0] if len(tg) == 1 else None
+    else:
+        g = U.helper_of(ctx.prog, f, call)
+    if g is None or _loop_split(g) is None or any(isinstance(a, ast.Starred) for a in call.args):
+        return None
+    ex = Expander(ctx.prog, f, ctx.typer)
+    cn = cfg_of(f).node_of(st)
+    params = list(g.params)[1:] if g.kind == 'method' else list(g.params)
+    sub = {p: ex.expand(a, cn) for p, a in zip(params, facts.bound_args(call, g)) if a is not None}
+    if g.kind == 'method':
+        sub[g.params[0]] = _e(f.params[0])
+    return g, _Deleg(f, sub, tacc, ktail, call)
+
+
+def _op_of_callable(fn, H):
+    """binary operator denoted by a callable expression: operator.isub / operator.sub / lambda a, b: a - b / a helper
+    parameter bound to one of those.  -> (ast operator class, swapped) or None"""
+    if isinstance(fn, ast.Name) and H is not None and fn.id in H.sub:
+        fn = H.sub[fn.id]
+    names = {'add': ast.Add, 'iadd': ast.Add, 'sub': ast.Sub, 'isub': ast.Sub, 'mul': ast.Mult, 'imul': ast.Mult,
+             'truediv': ast.Div, 'itruediv': ast.Div, 'floordiv': ast.FloorDiv, 'ifloordiv': ast.FloorDiv,
+             'mod': ast.Mod, 'imod': ast.Mod, 'pow': ast.Pow, 'ipow': ast.Pow, '__add__': ast.Add, '__sub__': ast.Sub,
+             '__mul__': ast.Mult, '__truediv__': ast.Div}
+    if isinstance(fn, ast.Attribute) and _name(fn.value, 'operator') and fn.attr in names:
+        return names[fn.attr], False
+    if isinstance(fn, ast.Name) and fn.id in names and not fn.id.startswith('__'):
+        return names[fn.id], False           # from operator import isub
+    if isinstance(fn, ast.Lambda) and len(fn.args.args) == 2 and isinstance(fn.body, ast.BinOp):
+        a, b = fn.args.args[0].arg, fn.args.args[1].arg
+        if _name(fn.body.left, a) and _name(fn.body.right, b):
+            return type(fn.body.op), False
+        if _name(fn.body.left, b) and _name(fn.body.right, a):
+            return type(fn.body.op), True
+    return None
+
+
+def _field_iter(ctx, o, f, loop, K, H=None):
     """the loop iterates the operand list stored by K.__init__, in order.  returns True when recognised and fine"""
     prog = ctx.prog
     ex = Expander(prog, f, ctx.typer)
     it = ex.expand(loop.iter, cfg_of(f).node_of(loop))
+    if H is not None:
+        from sa.flow import subst
+        it = subst(it, H.sub)
+    selfname = (H.tf if H is not None else f).params[0]
     m = match("list($x)", it) or match("tuple($x)", it) or match("iter($x)", it)
     core = m['x'] if m else it
     if match("reversed($x)", core) or (isinstance(core, ast.Subscript) and isinstance(core.slice, ast.Slice)):
         o.refute(f, loop, loop.iter, f"{K} folds `{src(it)}`: operands are dropped or taken out of order")
         return False
-    if not (isinstance(core, ast.Attribute) and isinstance(core.value, ast.Name) and core.value.id == f.params[0]):
+    if not (isinstance(core, ast.Attribute) and isinstance(core.value, ast.Name) and core.value.id == selfname):
         o.undecided(f, loop, loop.iter, "the fold does not iterate a field of the combinator")
         return False
     field = core.attr
@@ -315,13 +391,13 @@ def _field_iter(ctx, o, f, loop, K):
     return False
 
 
-def _elem_call(ctx, o, f, loop):
+def _elem_call(ctx, o, f, loop, H=None):
     """pattern of the per-operand value `c.get_available_units(date)`; None (after a verdict) when not in that shape"""
     tgt = loop.target
     if not isinstance(tgt, ast.Name) or len(f.params) < 2:
         o.undecided(f, loop, loop.target, "loop target is not a name")
         return None
-    date = f.params[1]
+    date = (H.tf if H is not None else f).params[1]
     calls = [c for st in loop.body for c in ast.walk(st) if isinstance(c, ast.Call) and isinstance(c.func, ast.Attribute)
              and c.func.attr == 'get_available_units']
     if len(calls) != 1:
@@ -336,10 +412,17 @@ def _elem_call(ctx, o, f, loop):
     if arg is None:
         o.undecided(f, c, c, "operand query has an unexpected argument list")
         return None
-    if not (isinstance(arg, ast.Name) and arg.id == date):
-        o.refute(f, c, c, f"operands are asked about `{src(arg)}` instead of the date `{date}` the combinator was asked about")
+    seen = arg
+    if H is not None:
+        from sa.flow import subst
+        if not isinstance(arg, ast.Name):
+            o.refute(f, c, c, f"operands are asked about `{src(arg)}` instead of the date the combinator was asked about")
+            return None
+        seen = subst(arg, H.sub)
+    if not (isinstance(seen, ast.Name) and seen.id == date):
+        o.refute(f, c, c, f"operands are asked about `{src(seen)}` instead of the date `{date}` the combinator was asked about")
         return None
-    return _e(f"{tgt.id}.get_available_units({date})")
+    return _e(f"{tgt.id}.get_available_units({src(arg)})")
 
 
 def _acc_name(pre, loop):
@@ -370,21 +453,79 @@ def _folds(ctx, table):
     osb = ctx.ob('fold_siblings', 'R11', "the arithmetic combinators skip exactly the None operands, start from the first "
                  "informative operand, combine every later one, over the constructor's operands in order, for the date asked", floor=4)
 
-    def body(_):
-        for d, (K, df, dret) in table.items():
-            f = prog.find_method(K, 'get_available_units')
-            if f is None or f.cls != K:
-                o.undecided(df, dret, K, f"{K} has no get_available_units of its own")
-                continue
-            sp = _loop_split(f)
-            if sp is None:
-                o.undecided(f, f.node, K, "get_available_units is not `init; for operand in operands: ...; return`")
-                continue
-            pre, loop, tail = sp
-            if OPS[d] is None:
-                _disjunction(ctx, o, f, K, pre, loop, tail)
+    class Rec:
+        """records verdict calls so that an attempt can be dropped or replayed onto the real obligation"""
+
+        def __init__(self):
+            self.calls = []
+
+        def site(self, *a):
+            self.calls.append(('site', a))
+
+        def refute(self, *a):
+            self.calls.append(('refute', a))
+
+        def undecided(self, *a):
+            self.calls.append(('undecided', a))
+
+        def bad(self):
+            return any(k == 'undecided' for k, _ in self.calls)
+
+        def replay(self, ob):
+            for k, a in self.calls:
+                getattr(ob, k)(*a)
+
+    class C2:
+        def __init__(self, prog, typer):
+            self.prog, self.typer = prog, typer
+
+    def attempt(c2, K, d, df, dret):
+        ro, rr, rs = Rec(), Rec(), Rec()
+        f = c2.prog.find_method(K, 'get_available_units')
+        if f is None or f.cls != K:
+            ro.undecided(df, dret, K, f"{K} has no get_available_units of its own")
+            return ro, rr, rs
+        sp = _loop_split(f)
+        H = None
+        g = f
+        if sp is None:
+            fh = _fold_helper(c2, f)
+            if fh is None:
+                ro.undecided(f, f.node, K, "get_available_units is not `init; for operand in operands: ...; return` "
+                                           "(nor a call of a helper of that shape)")
+                return ro, rr, rs
+            g, H = fh
+            sp = _loop_split(g)
+        pre, loop, tail = sp
+        if OPS[d] is None:
+            if H is not None:
+                ro.undecided(f, f.node, K, "`|` fold delegated to a helper")
             else:
-                _arith(ctx, o, orr, osb, f, K, d, pre, loop, tail)
+                _disjunction(c2, ro, f, K, pre, loop, tail)
+        else:
+            _arith(c2, ro, rr, rs, g, K, d, pre, loop, tail, H)
+        return ro, rr, rs
+
+    def body(_):
+        raw = [None]
+        for d, (K, df, dret) in table.items():
+            recs = attempt(C2(prog, ctx.typer), K, d, df, dret)
+            if any(r.bad() for r in recs) and getattr(prog, 'normalisation_log', None):
+                # the engine's helper folding may have produced a shape this rule does not know: look at the tree as written
+                if raw[0] is None:
+                    from sa.model import Program
+                    from sa.types import Typer
+                    try:
+                        rp = Program(prog.repo, normalise=False)
+                        raw[0] = C2(rp, Typer(rp))
+                    except Exception:
+                        raw[0] = False
+                if raw[0]:
+                    recs2 = attempt(raw[0], K, d, df, dret)
+                    if not any(r.bad() for r in recs2):
+                        recs = recs2
+            for r, ob in zip(recs, (o, orr, osb)):
+                r.replay(ob)
     ctx.guarded(o, body)
 
 
@@ -425,12 +566,12 @@ def _disjunction(ctx, o, f, K, pre, loop, tail):
         o.site(f, loop, f"{K}: first operand with value > 0, else None")
 
 
-def _arith(ctx, o, orr, osb, f, K, d, pre, loop, tail):
+def _arith(ctx, o, orr, osb, f, K, d, pre, loop, tail, H=None):
     prog = ctx.prog
     want = OPS[d]
-    if not _field_iter(ctx, osb, f, loop, K):
+    if not _field_iter(ctx, osb, f, loop, K, H):
         return
-    v = _elem_call(ctx, osb, f, loop)
+    v = _elem_call(ctx, osb, f, loop, H)
     if v is None:
         return
     acc, init = _acc_name(pre, loop)
@@ -503,6 +644,13 @@ def _arith(ctx, o, orr, osb, f, K, d, pre, loop, tail):
                     this = (type(rhs.op), False)
                 elif same(rhs.right, accn) and same(rhs.left, v):
                     this = (type(rhs.op), True)
+            if this is None and isinstance(rhs, ast.Call) and len(rhs.args) == 2 and not rhs.keywords:
+                oc = _op_of_callable(rhs.func, H)
+                if oc is not None:
+                    if same(rhs.args[0], accn) and same(rhs.args[1], v):
+                        this = (oc[0], oc[1])
+                    elif same(rhs.args[1], accn) and same(rhs.args[0], v):
+                        this = (oc[0], not oc[1])
             if this is None and same(rhs, v):
                 osb.refute(f, st, st, f"{K} overwrites the accumulator with a later operand ({case}) instead of combining")
                 ok = False
@@ -527,8 +675,30 @@ def _arith(ctx, o, orr, osb, f, K, d, pre, loop, tail):
             o.site(f, st, f"{K} folds with {SYM[want]}")
     # ---- tail
     okt = True
+    tf, texn, tacc = f, ex, accn
+    if H is not None:
+        # the helper itself must hand the accumulator back unchanged; the caller's statements after the call decide
+        for sa in SIGNS:
+            r = run_block(tail, Ev([(accn, sa, 'sign')]), ex)
+            if not (r.kind == 'return' and same(r.value, accn)):
+                orr.undecided(f, r.stmt or f.node, r.stmt or f.name, f"fold helper {f.name} does not simply return its accumulator "
+                                                                   f"(accumulator {SIGN_NAME[sa]})")
+                return
+        tf, texn = H.tf, Expander(prog, H.tf, ctx.typer)
+        if H.tacc is None:
+            tail, tacc = [ast.Return(value=_e('__fold_result__'))], _e('__fold_result__')
+            ast.fix_missing_locations(tail[0])
+        else:
+            tail, tacc = H.ktail, _e(H.tacc)
+    f_loop, f, ex, accn = f, tf, texn, tacc
+    alts = [accn]
+    if H is not None and H.tacc is not None:
+        alts.append(ex.expand(H.call, cfg_of(f).node_containing(H.call)))     # locals are expanded to their definition
+    synthetic = H is not None and H.tacc is None
     for sa in SIGNS:
-        r = run_block(tail, Ev([(accn, sa, 'sign')]), ex)
+        r = run_block(tail, Ev([(a, sa, 'sign') for a in alts]), ex)
+        if r.kind == 'return' and any(same(r.value, a) for a in alts):
+            r.value = accn
         if r.kind == 'unknown':
             orr.undecided(f, r.stmt, r.stmt, f"{K} result (accumulator {SIGN_NAME[sa]}): {r.why}")
             return
@@ -559,7 +729,7 @@ def _arith(ctx, o, orr, osb, f, K, d, pre, loop, tail):
                                           f"(None means 'no information' and lets an enclosing operator skip this operand)")
             okt = False
     if okt:
-        orr.site(f, tail[-1] if tail else f.node, f"{K}: " + ("None iff empty or < 0" if want is ast.Sub else "accumulator returned unchanged"))
+        orr.site(f, tail[-1] if tail and not synthetic else f.node, f"{K}: " + ("None iff empty or < 0" if want is ast.Sub else "accumulator returned unchanged"))
 
 
 
@@ -662,9 +832,12 @@ def _weekday_guard(ctx, o, f, gs, subject, what, keys: bool):
         # the check must lie on every path that builds the day table from this argument
         vf = _value_field(ctx, 'WeeklyCalendar')
         cfg = cfg_of(f)
-        stores = [st for st, ens in (_field_stores(ctx, f, vf[0], 'mapping') if vf else [])
-                  if ens and any(en.value is not None and (U.mentions(en.value, 'days') != keys) and U.mentions(en.value, 'units_per_day')
-                                 for en in ens)]
+        stores = []
+        for S in (_field_stores(ctx, f, vf[0], 'mapping') if vf else []):
+            ens = [S.entry(en) for en in (S.entries or [])]
+            if any(en.value is not None and (U.mentions(en.value, 'days') != keys) and U.mentions(en.value, 'units_per_day') for en in ens):
+                if not any(S.outer is x for x in stores):
+                    stores.append(S.outer)
         if not stores:
             o.undecided(f, f.node, f"table:{what}", f"{what}: the store that builds the day table from this argument was not found")
             return
@@ -843,41 +1016,112 @@ def _value_field(ctx, cls):
     return next(iter(out))
 
 
-def _field_stores(ctx, f, field, kind):
-    """[(stmt, [Entry] or None)] for every store into self.<field> in f; scalar stores come as one 'pair' entry"""
+class _Store:
+    """one store into the unit table / unit field.  func/stmt: where the entries are written (the method itself, or
+    a same-class helper that builds the table and returns it); sub: helper parameter -> caller expression;
+    outer: the statement of the method through which the entries reach the field"""
+
+    def __init__(self, func, stmt, entries, sub, outer_func, outer):
+        self.func, self.stmt, self.entries, self.sub, self.outer_func, self.outer = func, stmt, entries, sub, outer_func, outer
+
+    def entry(self, en):
+        """entry with the helper's parameters replaced by the caller's arguments"""
+        if not self.sub:
+            return en
+        from sa.flow import subst
+        sb = lambda x: subst(x, self.sub) if x is not None else None
+        return U.Entry(en.kind, key=sb(en.key), value=sb(en.value), target=en.target, it=sb(en.it), expr=sb(en.expr), node=en.node)
+
+    def binds(self, ctx, en):
+        """(target, iterable) of the comprehension / enclosing loops that bind the entry's key and value"""
+        from sa.flow import subst
+        cfg = cfg_of(self.func)
+        ex = Expander(ctx.prog, self.func, ctx.typer)
+        out = [(en.target, en.it)] if en.kind == 'comp' else []
+        sn = cfg.node_of(self.stmt) or cfg.node_containing(self.stmt)
+        for fo in (cfg.enclosing_fors(sn) if sn is not None else []):
+            out.append((fo.target, ex.expand(fo.iter, cfg.node_of(fo))))
+        return out
+
+
+def _stores_in(ctx, f, is_target, kind, field):
+    """[(stmt, [Entry] or None)] for every store into the target (self.<field> or a local table) in f"""
     ex = Expander(ctx.prog, f, ctx.typer)
     cfg = cfg_of(f)
     out = []
-
-    def is_field(x):
-        return isinstance(x, ast.Attribute) and x.attr == field and _name(x.value, f.params[0] if f.params else 'self')
     for n in walk_no_nested(f.node):
         if isinstance(n, (ast.Assign, ast.AnnAssign)):
             tgts = n.targets if isinstance(n, ast.Assign) else [n.target]
             for t in tgts:
-                if is_field(t) and n.value is not None:
+                if is_target(t) and n.value is not None:
                     v = ex.expand(n.value, cfg.node_of(n))
                     out.append((n, [U.Entry('pair', value=v, node=n)] if kind == 'scalar' else U.dict_entries(v, field)))
-                elif isinstance(t, ast.Subscript) and is_field(t.value):
+                elif isinstance(t, ast.Subscript) and is_target(t.value):
                     out.append((n, [U.Entry('pair', key=ex.expand(t.slice, cfg.node_of(n)), value=ex.expand(n.value, cfg.node_of(n)), node=n)]))
-                elif isinstance(t, (ast.Tuple, ast.List)) and any(is_field(x) or (isinstance(x, ast.Subscript) and is_field(x.value))
+                elif isinstance(t, (ast.Tuple, ast.List)) and any(is_target(x) or (isinstance(x, ast.Subscript) and is_target(x.value))
                                                                   for x in ast.walk(t)):
                     out.append((n, None))
         elif isinstance(n, ast.AugAssign):
-            if is_field(n.target):
+            if is_target(n.target):
                 if kind == 'mapping' and isinstance(n.op, ast.BitOr):
                     out.append((n, U.dict_entries(ex.expand(n.value, cfg.node_of(n)), field)))
                 else:
                     out.append((n, None))
-            elif isinstance(n.target, ast.Subscript) and is_field(n.target.value):
+            elif isinstance(n.target, ast.Subscript) and is_target(n.target.value):
                 out.append((n, None))
-        elif isinstance(n, ast.Call) and isinstance(n.func, ast.Attribute) and is_field(n.func.value):
+        elif isinstance(n, ast.Call) and isinstance(n.func, ast.Attribute) and is_target(n.func.value):
             name = n.func.attr
             st = cfg.node_containing(n)
             if name == 'update' and len(n.args) == 1 and not n.keywords:
                 out.append((st.ast if st is not None else n, U.dict_entries(ex.expand(n.args[0], st), field)))
             elif name in ('setdefault', '__setitem__', 'update'):
                 out.append((st.ast if st is not None else n, None))
+    return out
+
+
+def _helper_table(ctx, f, outer, call, h):
+    """`self.<field> = K.__helper(args)` where the helper fills a local table and returns it -> stores inside the helper"""
+    if any(isinstance(a, ast.Starred) for a in call.args):
+        return None
+    ba = facts.bound_args(call, h)
+    params = list(h.params)[1:] if h.kind == 'method' else list(h.params)
+    sub = {p: a for p, a in zip(params, ba) if a is not None}
+    exh = Expander(ctx.prog, h, ctx.typer)
+    rets = [n for n in walk_no_nested(h.node) if isinstance(n, ast.Return)]
+    if not rets:
+        return None
+    out = []
+    locals_ = set()
+    for r in rets:
+        if isinstance(r.value, ast.Name) and r.value.id not in h.params:
+            locals_.add(r.value.id)
+            continue
+        ens = U.dict_entries(exh.expand(r.value), '') if r.value is not None else None
+        if ens is None or any(e.kind == 'whole' for e in ens):
+            return None
+        out.append(_Store(h, r, ens, sub, f, outer))
+    for L in locals_:
+        st = _stores_in(ctx, h, lambda x, L=L: isinstance(x, ast.Name) and x.id == L, 'mapping', '')
+        if not st or any(ens is None or any(e.kind == 'whole' for e in ens) for _, ens in st):
+            return None
+        out += [_Store(h, stmt, ens, sub, f, outer) for stmt, ens in st]
+    return out
+
+
+def _field_stores(ctx, f, field, kind):
+    """[_Store] for every store into self.<field> in f; scalar stores come as one 'pair' entry.  A table built by a
+    same-class helper (`self.F = K.__build(..)`) is followed into the helper."""
+    def is_field(x):
+        return isinstance(x, ast.Attribute) and x.attr == field and _name(x.value, f.params[0] if f.params else 'self')
+    out = []
+    for stmt, ens in _stores_in(ctx, f, is_field, kind, field):
+        if kind == 'mapping' and ens and len(ens) == 1 and ens[0].kind == 'whole' and isinstance(ens[0].expr, ast.Call):
+            h = U.helper_of(ctx.prog, f, ens[0].expr)
+            recs = _helper_table(ctx, f, stmt, ens[0].expr, h) if h is not None else None
+            if recs:
+                out += recs
+                continue
+        out.append(_Store(f, stmt, ens, {}, f, stmt))
     return out
 
 
@@ -1012,14 +1256,15 @@ def _nonneg(ctx):
                 continue
             field, kind = vf
             ci = prog.cls(cls)
-            for f in list(ci.methods.values()) + list(ci.setters.values()):
-                stores = _field_stores(ctx, f, field, kind)
+            for mf in list(ci.methods.values()) + list(ci.setters.values()):
+                stores = _field_stores(ctx, mf, field, kind)
                 if not stores:
                     continue
-                gs = U.guard_facts(prog, ctx.typer, f)
-                ctor = f.name == '__init__'
-                cfg = cfg_of(f)
-                for stmt, entries in stores:
+                ctor = mf.name == '__init__'
+                for S in stores:
+                    f, stmt, entries = S.func, S.stmt, S.entries
+                    gs = U.guard_facts(prog, ctx.typer, f)
+                    cfg = cfg_of(f)
                     if entries is None:
                         o.undecided(f, stmt, stmt, f"store into {unmangle(field)} in a shape the rule does not understand")
                         continue
@@ -1027,17 +1272,15 @@ def _nonneg(ctx):
                     for en in entries:
                         if en.kind in ('state', 'empty'):
                             continue
+                        if en.kind == 'whole' and not isinstance(en.expr, (ast.Name, ast.Attribute)):
+                            verdicts.append((('unk', f"the table is taken from `{src(en.expr)[:60]}`, which the rule cannot look into", en.expr),
+                                             '', en.expr))
+                            continue
                         if en.kind == 'whole':
                             r = prove_all(f, stmt, en.expr, gs, ctor)
                             verdicts.append((r, f"all values of `{src(en.expr)}`", en.expr))
                             continue
-                        binds = []
-                        if en.kind == 'comp':
-                            binds.append((en.target, en.it))
-                        sn = cfg.node_of(stmt) or cfg.node_containing(stmt)
-                        ex = Expander(prog, f, ctx.typer)
-                        for fo in (cfg.enclosing_fors(sn) if sn is not None else []):
-                            binds.append((fo.target, ex.expand(fo.iter, cfg.node_of(fo))))
+                        binds = S.binds(ctx, en)
                         r = prove_path(f, stmt, en.value, gs)
                         if r is not None:
                             verdicts.append((r, f"`{src(en.value)[:50]}`", en.value))
@@ -1181,23 +1424,20 @@ def _bounded(ctx, o, cls, out_value, in_check):
 
 def _weekly_table(ctx, o, field):
     prog = ctx.prog
-    f = prog.func('calendar.WeeklyCalendar.__init__')
-    ex = Expander(prog, f, ctx.typer)
-    cfg = cfg_of(f)
-    stores = _field_stores(ctx, f, field, 'mapping')
+    init = prog.func('calendar.WeeklyCalendar.__init__')
+    stores = _field_stores(ctx, init, field, 'mapping')
     n = 0
-    for stmt, entries in stores:
+    for S in stores:
+        f, stmt, entries = S.func, S.stmt, S.entries
         if entries is None:
             o.undecided(f, stmt, stmt, "store into the day table in a shape the rule does not understand")
             continue
-        for en in entries:
-            if en.kind in ('empty', 'state'):
+        for en0 in entries:
+            if en0.kind in ('empty', 'state'):
                 continue
-            if en.kind == 'comp':
-                binds = [(en.target, en.it)]
-            elif en.kind == 'pair':
-                sn = cfg.node_of(stmt)
-                binds = [(fo.target, ex.expand(fo.iter, cfg.node_of(fo))) for fo in (cfg.enclosing_fors(sn) if sn else [])]
+            if en0.kind in ('comp', 'pair'):
+                binds = S.binds(ctx, en0)
+                en = S.entry(en0)
             else:
                 o.undecided(f, stmt, stmt, "day table copied wholesale from another mapping")
                 continue
@@ -1248,7 +1488,7 @@ def _weekly_table(ctx, o, field):
             else:
                 o.undecided(f, stmt, stmt, f"day table ({form} form) value `{src(en.value)[:70]}`")
     if n == 0 and not o.refuted and not o.unknown:
-        o.refute(f, f.node, 'day table', "WeeklyCalendar.__init__ never fills the day table")
+        o.refute(init, init.node, 'day table', "WeeklyCalendar.__init__ never fills the day table")
 
 
 class _MemberEv(Ev):
@@ -1320,17 +1560,17 @@ def _direct(ctx, o, field):
     ci = prog.cls('DirectCalendar')
     for w in list(ci.methods.values()) + list(ci.setters.values()):
         stores = _field_stores(ctx, w, field, 'mapping')
-        cfg = cfg_of(w)
-        exw = Expander(prog, w, ctx.typer)
-        for stmt, entries in stores:
+        for S in stores:
+            stmt, entries = S.outer, S.entries
             if entries is None:
                 o.undecided(w, stmt, stmt, "store into the table in a shape the rule does not understand")
                 continue
             okk, n = True, 0
-            for en in entries:
-                if en.kind in ('empty', 'state'):
+            for en0 in entries:
+                if en0.kind in ('empty', 'state'):
                     continue
                 n += 1
+                en = S.entry(en0)
                 if en.kind == 'whole':
                     okk = False
                     if isinstance(en.expr, ast.Name) and en.expr.id in w.params:
@@ -1339,9 +1579,8 @@ def _direct(ctx, o, field):
                     else:
                         o.undecided(w, stmt, stmt, f"table filled from `{src(en.expr)[:60]}`")
                     continue
-                binds = [(en.target, en.it)] if en.kind == 'comp' else []
-                sn = cfg.node_of(stmt) or cfg.node_containing(stmt)
-                binds += [(fo.target, exw.expand(fo.iter, cfg.node_of(fo))) for fo in (cfg.enclosing_fors(sn) if sn else [])]
+                from sa.flow import subst
+                binds = [(t, subst(it, S.sub) if S.sub else it) for t, it in S.binds(ctx, en0)]
                 kv = None
                 for t, it in binds:
                     b = U.items_binding(t, it)
@@ -1620,6 +1859,19 @@ def _search(ctx):
         cfg = cfg_of(f)
         fl = flow_of(f)
         ex = Expander(prog, f, ctx.typer)
+        # the date variable: the start date parameter itself, or a local copy of it taken before the loop
+        stored_in_loop = set()
+        for n in walk_no_nested(loop):
+            if isinstance(n, (ast.Assign, ast.AugAssign)):
+                for t in (n.targets if isinstance(n, ast.Assign) else [n.target]):
+                    if isinstance(t, ast.Name):
+                        stored_in_loop.add(t.id)
+        if D not in stored_in_loop:
+            copies = [st.targets[0].id for st in pre if isinstance(st, ast.Assign) and len(st.targets) == 1
+                      and isinstance(st.targets[0], ast.Name) and _name(st.value, D) and st.targets[0].id in stored_in_loop]
+            if len(copies) == 1 and not [d for d in fl.defs_of(D) if d.kind != 'param'] and \
+                    len([d for d in fl.defs_of(copies[0]) if d.node is not None and not any(d.stmt is x for x in ast.walk(loop))]) == 1:
+                D = copies[0]
         # ---- (a) horizon test
         c = U.compare_atom(loop.test, True)
         if c is None:
